@@ -197,6 +197,9 @@ class Roles:
             # a shallow copy: a new record whose attributes are the original's objects ('~' marks the copy itself: re-binding an
             # attribute of the copy leaves the original alone, reading one yields the shared object)
             return {p + "~" for p in self.paths(fi, e.args[0]) if not p.endswith("~")} | {p for p in self.paths(fi, e.args[0]) if p.endswith("~")}
+        if isinstance(f, ast.Name) and f.id == "vars" and len(e.args) == 1:
+            # vars(obj) is the object's live attribute dictionary, not a copy: a store into it writes the attribute
+            return self.with_alias({p + ".__dict__" for p in self.paths(fi, e.args[0])})
         if isinstance(f, ast.Name):
             if f.id in FRESH_CALLS:
                 return set()
